@@ -11,6 +11,7 @@ import math
 
 from mc import alpha
 from mc.env import guard
+from mc.state import seq
 from mc.state import track_extras
 from mc import pasts
 from mc.explore import bfs
@@ -48,6 +49,8 @@ OBLIGATIONS = {
     "undefined_event": "an event whose reference meaning is undefined was fired",
     "derived_track_edited": "a track cut out of a track listing >= 2 features got a feature added and one removed",
     "self_assignment": "an expression assigns an existing feature to itself",
+    "read_channels_compared": "a feature written by a function (one that runs out of neighbours included) was read back through the "
+                              "column getter, the bracket forms and the per-observation getters, front and back indices",
     "operator_written_in_place": "a void operator object was applied with its output name equal to an input name and compared "
                                  "with the same operator written to a new name",
 }
@@ -131,6 +134,9 @@ def _exprs():
     E.append(("z=a+1", "z", ["a"], lambda M: [p + 1 for p in A(M, "a")]))
     E.append(("y=y+b", "y", ["b"], lambda M: [p + q for p, q in zip(M["y"], A(M, "b"))]))
     E.append(("b=a*a-c", "b", ["a", "c"], lambda M: [p * p - q for p, q in zip(A(M, "a"), A(M, "c"))]))
+    # refused half-way through exit(1), not through an exception: q is never a feature, (a+b) has already made a temporary
+    E.append(("(a+b)*(q*2)", None, ["a", "b", "q"], lambda M: []))
+    E.append(("c=(a+b)*(q*2)", "c", ["a", "b", "q"], lambda M: []))
     # comparisons (1.0 / 0.0): the only operators that are not arithmetic signs
     E.append(("a>b", None, ["a", "b"], lambda M: [1.0 if p > q else 0.0 for p, q in zip(A(M, "a"), A(M, "b"))]))
     E.append(("c=a<b", "c", ["a", "b"], lambda M: [1.0 if p < q else 0.0 for p, q in zip(A(M, "a"), A(M, "b"))]))
@@ -450,7 +456,7 @@ def make_check(ctx, N, variant, root_case):
                 return False
             if ev[0] in ("expr", "bexpr") and EXPRS[ev[1]][1] is None and res[0] == "ok":
                 exp_vals = EXPRS[ev[1]][3](M)
-                if not isinstance(res[1], list) or not _eq(exp_vals, res[1]):
+                if seq(res[1]) is None or not _eq(exp_vals, seq(res[1])):
                     ctx.violation("expr/returned-values-differ", case, {"expected": exp_vals, "got": res[1]})
                     return False
         else:
@@ -560,6 +566,12 @@ def check_alias(variant, n, name, kind, form, ctx):
         ctx.violation("operator/%s/observation-holds-a-collection-instead-of-one-value" % name, case,
                       {"observation": ci, "holds": repr(want[ci])[:120]})
         return
+    ret = r1[1]
+    if isinstance(ret, (list, tuple)) and len(ret) == len(want) and not _eq(list(ret), want):
+        # the list a void operator hands back is the column it has just stored (read channel, not a second computation)
+        ctx.violation("operator/%s/returned-list-differs-from-the-feature-it-stored" % name, case,
+                      {"returned": repr(ret)[:200], "stored": want})
+        return
     got = read_model(t2)
     if tgt not in got["af"] or not _eq(want, got["af"][tgt]):
         ctx.violation(key + "values-differ-from-the-same-operator-written-to-a-new-name", case,
@@ -579,6 +591,73 @@ def check_alias(variant, n, name, kind, form, ctx):
             return
     ctx.oblige("operator_written_in_place")
     ctx.outcome(("alias", name, n))
+
+
+# ---- read channels: a feature written once is one column, whichever documented way it is read (column getter, bracket
+# forms, per-observation getters with front indices and - where the call accepts them - Python's end-relative indices),
+# and the list addAnalyticalFeature hands back is that column.  Differential oracle: no model of the written values.
+def _fwd(tr, i):
+    return tr.getObsAnalyticalFeature("a", i + 1) - tr.getObsAnalyticalFeature("a", i)     # runs out at the last fix
+
+
+CHANNEL_ALGOS = [("forward-difference", _fwd), ("ramp", lambda tr, i: 100.0 + i),
+                 ("runs-out-on-odd-fixes", lambda tr, i: [tr.getObsAnalyticalFeature("b", i)][i % 2])]
+
+
+def _channels(ctx, case, t, name, col):
+    n = len(col)
+    readers = [("bracket[name]", lambda: list(t[name]), None)]
+    for i in range(n):
+        for k, tag in ((i, ""), (i - n, "/end-relative-index")):
+            readers += [("getObsAnalyticalFeature" + tag, (lambda k=k: t.getObsAnalyticalFeature(name, k)), i),
+                        ("bracket[name,i]" + tag, (lambda k=k: t[name, k]), i),
+                        ("bracket[i,name]" + tag, (lambda k=k: t[k, name]), i),
+                        ("getObsAnalyticalFeatures" + tag, (lambda k=k: t.getObsAnalyticalFeatures([name], k)[0]), i)]
+    for label, fn, i in readers:
+        st, v = guard(fn)
+        if st != "ok":
+            if label.endswith("/end-relative-index"):
+                continue                  # a getter may refuse negative indices; it may not answer with another fix's value
+            ctx.violation("read-channel/%s/%s" % (label, "does-not-return" if st == "hang" else "raises"), case, v)
+            return False
+        want = col if i is None else [col[i]]
+        if not _eq(want, v if i is None else [v]):
+            ctx.violation("read-channel/%s/value-differs-from-the-column-read-by-name" % label, case,
+                          {"feature": name, "observation": i, "read": repr(v)[:120], "column": col})
+            return False
+    return True
+
+
+def check_channels(variant, n, ctx):
+    case = {"kind": "channels", "variant": variant, "N": n}
+    ctx.case(n >= 2)
+    ctx.oblige("read_channels_compared")
+    for label, fn in CHANNEL_ALGOS:
+        t = _alias_track(variant, n)
+        for rnd in ("created", "overwritten"):
+            ctx.transition()
+            st, ret = guard(t.addAnalyticalFeature, fn, "f")
+            c = dict(case, algorithm=label, feature=rnd)
+            if st == "hang":
+                ctx.violation("function-feature/does-not-return", c, ret)
+                return
+            if st != "ok":
+                ctx.undef()               # an implementation may let the function's own error through
+                break
+            st, col = guard(lambda: list(t.getAnalyticalFeature("f")))
+            if st != "ok" or len(col) != n:
+                ctx.violation("function-feature/column-unreadable-after-the-call", c, col)
+                return
+            if isinstance(ret, (list, tuple)) and len(ret) == n and not _eq(list(ret), col):
+                ctx.violation("function-feature/returned-list-differs-from-the-values-read-by-name", c,
+                              {"returned": repr(ret)[:200], "read_by_name": col})
+                return
+            if not _channels(ctx, c, t, "f", col):
+                return
+            for nm in ("a", "b"):
+                if not _channels(ctx, dict(c, other=nm), t, nm, list(t.getAnalyticalFeature(nm))):
+                    return
+    ctx.outcome(("channels", n))
 
 
 # ---- tracks with a past: the same short history of feature operations on a track that went through another part of the
@@ -653,6 +732,7 @@ def plan(tier, variant):
     for kind in ("u", "b", "s"):
         shards.append({"kind": "alias", "N": 0, "variant": variant, "opkind": kind})
     shards.append({"kind": "pasts", "N": 0, "variant": variant})
+    shards.append({"kind": "channels", "N": 0, "variant": variant})
     return shards
 
 
@@ -663,6 +743,13 @@ def run_shard(shard, ctx):
                 check_past(shard["variant"], n, past, ctx)
         ctx.sample({"tracks_with_a_past": pasts.PASTS, "sizes": [1, 2, 3, 5],
                     "history": "create n, t['m'] = list, update n, c=n+m, remove n - every listed feature read back after each step"})
+        return
+    if shard.get("kind") == "channels":
+        for n in ALIAS_SIZES:
+            check_channels(shard["variant"], n, ctx)
+        ctx.sample({"read_channels": ["getAnalyticalFeature", "track[name]", "track[name, i]", "track[i, name]",
+                                      "getObsAnalyticalFeature", "getObsAnalyticalFeatures", "list returned by addAnalyticalFeature"],
+                    "indices": "0..n-1 and -n..-1", "functions": [a[0] for a in CHANNEL_ALGOS], "sizes": ALIAS_SIZES})
         return
     if shard.get("kind") == "alias":
         v = shard["variant"]
@@ -689,6 +776,8 @@ def run_shard(shard, ctx):
 def replay(case, ctx):
     if case.get("kind") == "past":
         return check_past(case["variant"], case["N"], case["past"], ctx)
+    if case.get("kind") == "channels":
+        return check_channels(case["variant"], case["N"], ctx)
     if case.get("kind") == "alias":
         return check_alias(case["variant"], case["N"], case["op"], case["opkind"], case["form"], ctx)
     N, variant = case["N"], case["variant"]
